@@ -1,4 +1,5 @@
 // C18 harness: nmtools::utils::isequal / isclose on run-time shaped operands, optionals, eithers, tuples, views
+#include <cmath>
 #include "nmtools/array/ndarray.hpp"
 #include "nmtools/array/view/transpose.hpp"
 #include "nmtools/utility/isequal.hpp"
@@ -134,9 +135,19 @@ std::string handle(const std::string& op, const Args& a) {
     }
     if (op=="isclose") {
         auto s1 = nats(a,"as"), s2 = nats(a,"bs"); auto d1 = intsi(a,"ad"), d2 = intsi(a,"bd");
-        ndf_t x; x.resize(s1); for (size_t k=0;k<d1.size()&&k<(size_t)nm::size(x);k++) x.data()[k]=d1[k];
-        ndf_t y; y.resize(s2); for (size_t k=0;k<d2.size()&&k<(size_t)nm::size(y);k++) y.data()[k]=d2[k];
+        // sentinels for non-finite elements: 9001 = +inf, 9002 = -inf, 9003 = NaN
+        auto sp = [](int v) -> double { return v==9001 ? HUGE_VAL : v==9002 ? -HUGE_VAL : v==9003 ? std::nan("") : (double)v; };
+        ndf_t x; x.resize(s1); for (size_t k=0;k<d1.size()&&k<(size_t)nm::size(x);k++) x.data()[k]=sp(d1[k]);
+        ndf_t y; y.resize(s2); for (size_t k=0;k<d2.size()&&k<(size_t)nm::size(y);k++) y.data()[k]=sp(d2[k]);
         double eps = (double)integer(a,"eps");
+        return tf(nm::utils::isclose(x,y,eps));
+    }
+    if (op=="isclose_num") {   // two scalars (optionally wrapped in a maybe), same sentinels
+        auto sp = [](long long v) -> double { return v==9001 ? HUGE_VAL : v==9002 ? -HUGE_VAL : v==9003 ? std::nan("") : (double)v; };
+        double x = sp(integer(a,"ad")), y = sp(integer(a,"bd")); double eps = (double)integer(a,"eps");
+        std::string w = has(a,"w") ? get(a,"w") : "plain";
+        if (w=="just") { nmtools_maybe<double> mx{x}, my{y}; return tf(nm::utils::isclose(mx,my,eps)); }
+        if (w=="tuple") { auto tx = nmtools_tuple{x, 1.0}; auto ty = nmtools_tuple{y, 1.0}; return tf(nm::utils::isclose(tx,ty,eps)); }
         return tf(nm::utils::isclose(x,y,eps));
     }
     return "unknown-op";
